@@ -41,18 +41,24 @@ def build(tier, seed):
                 variants += [('shuf', 'explicit', 'hostile'), ('desc', 'fancy', 'dup'), ('runshuf', 'explicit', 'swap'), ('asc', 'fancy', 'default')]
             else:
                 variants += [('desc', 'explicit', 'default')]
-            if tier == 'quick':
+            light = label.startswith(('gapless_end_u', 'gapless_end_i', 'gapless_cross_', 'gapless_start_i', 'holes_at_', 'holes_span_mod'))
+            if light:
+                # boundary classes of narrower widths: many shapes, so fewer declaration variants each
+                variants = [variants[(k + j) % len(variants)] for j in range(1 if tier == 'quick' else 2)]
+            elif tier == 'quick':
                 # quick: rotate declaration variants instead of taking all
                 variants = [variants[(k + j) % len(variants)] for j in range(2 if n <= 50 else 1)]
             for (order, spelling, naming) in variants:
                 d = D.make_decl(r, label, vals, order, spelling, naming, rnd,
                                 vis=['pub', 'pub(crate)', '', 'pub(super)'][k % 4])
-                ncfg = (3 if n <= 50 else 2) if tier == 'quick' else (5 if n <= 50 else 2)
+                ncfg = 2 if light else ((3 if n <= 50 else 2) if tier == 'quick' else (5 if n <= 50 else 2))
                 for j in range(ncfg):
                     a, f, t, it, wr = rot[(k * 5 + j * 7) % len(rot)]
                     if n > 300 and it == 'table_inline':
                         it = 'table'
-                    add(d, D.full_config(a, f, t, it, wr, split=1 + (k + j) % 3))
+                    c = D.full_config(a, f, t, it, wr, split=1 + (k + j) % 3)
+                    c['repr_pos'] = ['last', 'first', 'middle'][(k + j) % 3]
+                    add(d, c)
                     k += 1
     # the complete mode product on a few small declarations (C09 matrix)
     for r, label, vals in [('i8', 'holes_neg_later', [-10, -9, -5, -4, 3]), ('u8', 'gapless0', [0, 1, 2, 3]),
@@ -89,6 +95,38 @@ def build(tier, seed):
                     add(d, D.config([f], {f: mm}), kind='single', classes=[f, str(mm)])
                     if f == 'iter' and m != 'table_inline':
                         add(d, D.config(['iter', 'range'], {'iter': mm}), kind='single', classes=['iter+range', str(mm)])
+    # `sorted` configurations: the declaration order is constrained by name and/or value while the other stays free
+    for r, label, vals in [('i16', 'holes_neg_later', [-10, -9, -5, -4, 3]), ('u8', 'gapless0', [0, 1, 2, 3]), ('i64', 'holes_mixed', [1, 2, 3, 4, 10, 20, 21, 30, 31, 32, 33, 34, 35]),
+                           ('i8', 'gapless_neg', [-3, -2, -1, 0, 1, 2]), ('u32', 'holes_singletons', list(range(0, 20, 2)))]:
+        n = len(vals)
+        for variant in ('name', 'value', 'both', 'bare'):
+            base = D.make_decl(r, label, vals, 'asc', 'explicit', 'default', rnd)
+            d = dict(base)
+            if variant == 'name':
+                # names ascending in declaration order, values shuffled
+                perm = list(range(n)); rnd.shuffle(perm)
+                vs = [dict(base['variants'][i]) for i in perm]
+                for pos, v in enumerate(vs):
+                    v['ident'] = D.ident(pos)
+                d['variants'] = vs; d['order'] = 'sorted-by-name'
+                sp = {'name': True}
+            elif variant == 'value':
+                # values ascending, names not: identifiers reversed, and a hostile rename
+                vs = [dict(v) for v in base['variants']]
+                for pos, v in enumerate(vs):
+                    v['ident'] = D.ident(n - 1 - pos)
+                if n >= 3:
+                    vs[1]['rename'] = 'zzz'
+                d['variants'] = vs; d['order'] = 'sorted-by-value'
+                sp = {'value': True}
+            elif variant == 'both':
+                sp = {'name': True, 'value': True}
+            else:
+                sp = {}
+            for (a, f, t, it) in [('table', 'table', 'table', 'next_and_back'), ('match', 'match', 'match', 'table'), (None, None, None, None)]:
+                c = D.full_config(a, f, t, it, True, split=2)
+                c['features'] = [('sorted', sp)] + c['features']
+                add(d, c, kind='sorted', classes=['sorted=' + variant])
     # every pair of features (plus iter when range needs it), gapless and holes
     import itertools as _it2
     for r, label, vals in [('i8', 'holes_neg_later', [-10, -9, -5, -4, 3]), ('u16', 'gapless_pos', [5, 6, 7])]:
@@ -126,13 +164,14 @@ def build(tier, seed):
                         if fpv is not None:
                             p['vis'] = fpv
                         if named:
-                            p['name'] = 'my_' + f.lower() if f not in ('MIN', 'MAX') else 'MY_' + f
+                            p['name'] = ('my_' + f.lower() + ('_ß' if f in ('next', 'as_str', 'iter') else '')) if f not in ('MIN', 'MAX') else 'MY_' + f
                         if named and f in D.HAS_STRUCT_NAME:
                             p['struct_name'] = 'My' + f.capitalize() + 'Struct'
                         params[f] = p
-                    for it in (['range', 'next_and_back'] if d['gapless'] else ['next_and_back', 'table']):
-                        add(d, D.config(D.ALL_FEATURES, {'iter': it, 'as_str': 'table'}, params, split=2), kind='params',
-                            classes=['evis=' + evis, 'vis=' + str(pv), 'named=' + str(named)])
+                    for it in (['range', 'next_and_back', 'table_inline'] if d['gapless'] else ['next_and_back', 'table', 'table_inline']):
+                        feats = D.ALL_FEATURES if it != 'table_inline' else [x for x in D.ALL_FEATURES if x != 'range']
+                        add(d, D.config(feats, {'iter': it, 'as_str': 'table'}, params, split=2), kind='params',
+                            classes=['evis=' + evis, 'vis=' + str(pv), 'named=' + str(named), 'iter=' + it])
     # ---- families for the metamorphic properties (C18, C10 split): members differ in exactly one dimension
     fam = [0]
     def family(kind, members):
